@@ -313,7 +313,8 @@ def replay_bookkeeping(inputs):
     n_sites = inputs['n_sites']
     labels = inputs['labels']
     bad = []
-    tr = make_transitions(states, n_sites=n_sites, labels=labels, sheared=bool(inputs.get('sheared')), seed=int(inputs.get('lat_seed', 0)))
+    tr = make_transitions(states, n_sites=n_sites, labels=labels, sheared=bool(inputs.get('sheared')), seed=int(inputs.get('lat_seed', 0)),
+                          site_lattice_scale=inputs.get('site_lattice_scale'))
     T, N = states.shape
     # occupancy
     occ = tr.occupancy()
@@ -381,7 +382,7 @@ def replay_bookkeeping(inputs):
 def bounded_bookkeeping(tier, seed):
     import numpy as np
     n_cases = 60 if tier == 'quick' else 600
-    st = Stand('C05.bookkeeping.random', f'{n_cases} random state histories: <= 40 frames, <= 3 atoms, <= 4 sites, <= 3 labels',
+    st = Stand('C05.bookkeeping.random', f'{n_cases} random state histories: <= 40 frames, <= 3 atoms, <= 4 sites, <= 3 labels; cubic and strongly sheared cells; every fifth case with the site structure in a reference cell 3 % smaller than the simulation cell',
                'random histories with dwell times (seeded); non-trivial = history with >= 1 jump; distinct by history')
     rng = np.random.default_rng(seed + 505)
     for c in range(n_cases):
@@ -404,6 +405,8 @@ def bounded_bookkeeping(tier, seed):
             free = [k for k in range(-1, S) if k != states[0, 0] and (k == -1 or k not in states[-1, 1:])]
             states[-1, 0] = free[0]
         inp = {'states': states.tolist(), 'n_sites': S, 'labels': labels, 'sheared': c % 2 == 1, 'lat_seed': c}
+        if c % 5 == 3:
+            inp['site_lattice_scale'] = 0.97  # sites given in a reference cell 3 % smaller than the simulation cell
         r = st.guard(replay_bookkeeping, inp)
         if r is None:
             continue
